@@ -4,7 +4,8 @@ import ColaVerif.Lemmas.CGOptimal
 # The guarded recurrence of `take_cg_step` in an abstract inner product space (level 1)
 
 `gStep A M ε` is `take_cg_step` for one column with the guards still in: the `has_converged` mask
-(`‖r‖ < ε ⇒ α = β = 0`) and the two guarded divisions (`do_safe_div`: `‖d‖ < ε ⇒ d := ε`).
+(`‖r‖ < ε ⇒ α = β = 0`) and the two guarded divisions (`do_safe_div`: `d = 0 ⇒ d := ε`, an exact zero
+test since the repair 1a4d949 of /repo; before it the test was `‖d‖ < ε`).
 `gRun` adds the normalisation of `run_batched_cg` (`mult = ‖b‖`, `b / mult`, `x0 / mult`, final
 `x * mult`).
 
@@ -22,11 +23,14 @@ open scoped InnerProductSpace ComplexConjugate
 
 variable {𝕜 E : Type*} [RCLike 𝕜] [NormedAddCommGroup E] [InnerProductSpace 𝕜 E]
 
-/-- `do_safe_div` in exact arithmetic -/
-noncomputable def sdiv (ε : ℝ) (a d : 𝕜) : 𝕜 := a / (if ‖d‖ < ε then (ε : 𝕜) else d)
+/-- `do_safe_div` in exact arithmetic (exact zero test) -/
+noncomputable def sdiv (ε : ℝ) (a d : 𝕜) : 𝕜 := a / (if d = 0 then (ε : 𝕜) else d)
 
-theorem sdiv_of_le {ε : ℝ} {d : 𝕜} (h : ε ≤ ‖d‖) (a : 𝕜) : sdiv ε a d = a / d := by
-  unfold sdiv; rw [if_neg (not_lt.mpr h)]
+theorem sdiv_of_ne {ε : ℝ} {d : 𝕜} (h : d ≠ 0) (a : 𝕜) : sdiv ε a d = a / d := by
+  unfold sdiv; rw [if_neg h]
+
+theorem sdiv_of_le {ε : ℝ} (hε : 0 < ε) {d : 𝕜} (h : ε ≤ ‖d‖) (a : 𝕜) : sdiv ε a d = a / d :=
+  sdiv_of_ne (fun h0 => by rw [h0, norm_zero] at h; linarith) a
 
 /-- one column of the loop state `(x, r, p, alpha, beta, gamma)` -/
 structure GState (𝕜 E : Type*) where
@@ -61,19 +65,32 @@ variable {A M}
 
 theorem gInit_core (b x0 : E) : (gInit A M b x0).core = cgInit A M b x0 := rfl
 
-/-- no guard active ⇒ the guarded step is the unguarded one -/
-theorem gStep_core {ε : ℝ} {s : GState 𝕜 E} (hr : ε ≤ ‖s.r‖) (hγ : ε ≤ ‖s.γ‖)
-    (hd : ε ≤ ‖⟪s.p, A s.p⟫_𝕜‖) : (gStep A M ε s).core = cgStep A M s.core := by
+/-- mask off and no denominator exactly zero ⇒ the guarded step is the unguarded one -/
+theorem gStep_core {ε : ℝ} {s : GState 𝕜 E} (hr : ε ≤ ‖s.r‖) (hγ : s.γ ≠ 0)
+    (hd : ⟪s.p, A s.p⟫_𝕜 ≠ 0) : (gStep A M ε s).core = cgStep A M s.core := by
   unfold gStep cgStep cgAlpha GState.core
-  simp only [if_neg (not_lt.mpr hr), sdiv_of_le hd, sdiv_of_le hγ]
+  simp only [if_neg (not_lt.mpr hr), sdiv_of_ne hd, sdiv_of_ne hγ]
 
-/-- the guards of step `i`, read off the unguarded sequence -/
+/-- the guards of step `i` in the form of the code BEFORE the repair (three thresholds), read off the
+unguarded sequence; kept as the hypothesis of the round-1 theorems (it implies `StepOK` for `ε > 0`) -/
 def GuardsOff (A M : E →ₗ[𝕜] E) (ε : ℝ) (b x0 : E) (i : ℕ) : Prop :=
   ε ≤ ‖(cgSeq A M b x0 i).r‖ ∧ ε ≤ ‖(cgSeq A M b x0 i).γ‖ ∧
     ε ≤ ‖⟪(cgSeq A M b x0 i).p, A (cgSeq A M b x0 i).p⟫_𝕜‖
 
-/-- **bridge level 1 → 2**: while no guard is active the guarded recurrence is `cgSeq` -/
-theorem gSeq_core {ε : ℝ} {b x0 : E} (k : ℕ) (h : ∀ i < k, GuardsOff A M ε b x0 i) :
+/-- what the repaired code needs at step `i`: the mask is off (`ε ≤ ‖r_i‖`) and neither denominator is
+exactly zero -/
+def StepOK (A M : E →ₗ[𝕜] E) (ε : ℝ) (b x0 : E) (i : ℕ) : Prop :=
+  ε ≤ ‖(cgSeq A M b x0 i).r‖ ∧ (cgSeq A M b x0 i).γ ≠ 0 ∧
+    ⟪(cgSeq A M b x0 i).p, A (cgSeq A M b x0 i).p⟫_𝕜 ≠ 0
+
+theorem GuardsOff.stepOK {ε : ℝ} (hε : 0 < ε) {b x0 : E} {i : ℕ} (h : GuardsOff A M ε b x0 i) :
+    StepOK A M ε b x0 i :=
+  ⟨h.1, fun h0 => by have := h.2.1; rw [h0, norm_zero] at this; linarith,
+   fun h0 => by have := h.2.2; rw [h0, norm_zero] at this; linarith⟩
+
+/-- **bridge level 1 → 2**: while the mask is off and no denominator vanishes the guarded recurrence
+is `cgSeq` -/
+theorem gSeq_core_ok {ε : ℝ} {b x0 : E} (k : ℕ) (h : ∀ i < k, StepOK A M ε b x0 i) :
     ((gStep A M ε)^[k] (gInit A M b x0)).core = cgSeq A M b x0 k := by
   induction k with
   | zero => rfl
@@ -83,9 +100,14 @@ theorem gSeq_core {ε : ℝ} {b x0 : E} (k : ℕ) (h : ∀ i < k, GuardsOff A M 
     rw [Function.iterate_succ_apply']
     have e : cgSeq A M b x0 (k + 1) = cgStep A M (cgSeq A M b x0 k) := rfl
     rw [e, ← ih']
-    unfold GuardsOff at hk
+    unfold StepOK at hk
     rw [← ih'] at hk
     exact gStep_core hk.1 hk.2.1 hk.2.2
+
+/-- the same from the three thresholds of the round-1 statements (`ε > 0`) -/
+theorem gSeq_core {ε : ℝ} (hε : 0 < ε) {b x0 : E} (k : ℕ) (h : ∀ i < k, GuardsOff A M ε b x0 i) :
+    ((gStep A M ε)^[k] (gInit A M b x0)).core = cgSeq A M b x0 k :=
+  gSeq_core_ok k (fun i hi => (h i hi).stepOK hε)
 
 /-- once `‖r‖ < ε` the mask freezes `x` and `r` -/
 theorem gStep_frozen {ε : ℝ} {s : GState 𝕜 E} (h : ‖s.r‖ < ε) :
@@ -200,20 +222,27 @@ theorem gRun_smul {ε : ℝ} {c : ℝ} (hc : 0 < c) (b : E) (k : ℕ) :
 theorem gRun_zero (ε : ℝ) (x0 : E) (k : ℕ) : gRun A M ε (0 : E) x0 k = 0 := by
   unfold gRun; simp
 
-/-- the guards of the first `k` steps of the normalised system -/
+/-- the guards of the first `k` steps of the normalised system (three thresholds, round-1 form) -/
 def GuardsOffN (A M : E →ₗ[𝕜] E) (ε : ℝ) (b x0 : E) (k : ℕ) : Prop :=
   ∀ i < k, GuardsOff A M ε ((((‖b‖ : ℝ) : 𝕜))⁻¹ • b) ((((‖b‖ : ℝ) : 𝕜))⁻¹ • x0) i
 
+/-- what the repaired code needs in the first `k` steps of the normalised system -/
+def StepOKN (A M : E →ₗ[𝕜] E) (ε : ℝ) (b x0 : E) (k : ℕ) : Prop :=
+  ∀ i < k, StepOK A M ε ((((‖b‖ : ℝ) : 𝕜))⁻¹ • b) ((((‖b‖ : ℝ) : 𝕜))⁻¹ • x0) i
+
+theorem GuardsOffN.stepOKN {ε : ℝ} (hε : 0 < ε) {b x0 : E} {k : ℕ} (h : GuardsOffN A M ε b x0 k) :
+    StepOKN A M ε b x0 k := fun i hi => (h i hi).stepOK hε
+
 /-- with no guard active, the value returned after `k` steps is the `k`-th iterate of textbook
 preconditioned CG on the ORIGINAL system -/
-theorem gRun_eq_cgSeq {ε : ℝ} {b x0 : E} (hb : b ≠ 0) {k : ℕ}
-    (hg : GuardsOffN A M ε b x0 k) : gRun A M ε b x0 k = (cgSeq A M b x0 k).x := by
+theorem gRun_eq_cgSeq_ok {ε : ℝ} {b x0 : E} (hb : b ≠ 0) {k : ℕ}
+    (hg : StepOKN A M ε b x0 k) : gRun A M ε b x0 k = (cgSeq A M b x0 k).x := by
   have hμ0 : (((‖b‖ : ℝ) : 𝕜)) ≠ 0 := by
     have : ‖b‖ ≠ 0 := norm_ne_zero_iff.mpr hb
     exact_mod_cast this
   unfold gRun
   rw [nscale_of_ne hb]
-  have h1 := gSeq_core (A := A) (M := M) k hg
+  have h1 := gSeq_core_ok (A := A) (M := M) k hg
   have hx : ((gStep A M ε)^[k] (gInit A M ((((‖b‖ : ℝ) : 𝕜))⁻¹ • b) ((((‖b‖ : ℝ) : 𝕜))⁻¹ • x0))).x
       = (cgSeq A M ((((‖b‖ : ℝ) : 𝕜))⁻¹ • b) ((((‖b‖ : ℝ) : 𝕜))⁻¹ • x0) k).x := by
     rw [← h1]; rfl
@@ -221,9 +250,15 @@ theorem gRun_eq_cgSeq {ε : ℝ} {b x0 : E} (hb : b ≠ 0) {k : ℕ}
   show ((‖b‖ : ℝ) : 𝕜) • ((((‖b‖ : ℝ) : 𝕜))⁻¹ • (cgSeq A M b x0 k).x) = _
   rw [smul_smul, mul_inv_cancel₀ hμ0, one_smul]
 
-/-- residuals of the original system are non-zero while the guards of the normalised one are off -/
-theorem r_ne_zero_of_guards {ε : ℝ} (hε : 0 < ε) {b x0 : E} (hb : b ≠ 0) {k : ℕ}
-    (hg : GuardsOffN A M ε b x0 k) : ∀ i < k, (cgSeq A M b x0 i).r ≠ 0 := by
+/-- with no guard active (round-1 form), the value returned after `k` steps is the `k`-th iterate of
+textbook preconditioned CG on the ORIGINAL system -/
+theorem gRun_eq_cgSeq {ε : ℝ} (hε : 0 < ε) {b x0 : E} (hb : b ≠ 0) {k : ℕ}
+    (hg : GuardsOffN A M ε b x0 k) : gRun A M ε b x0 k = (cgSeq A M b x0 k).x :=
+  gRun_eq_cgSeq_ok hb (hg.stepOKN hε)
+
+/-- residuals of the original system are non-zero while the mask of the normalised one is off -/
+theorem r_ne_zero_of_ok {ε : ℝ} (hε : 0 < ε) {b x0 : E} (hb : b ≠ 0) {k : ℕ}
+    (hg : StepOKN A M ε b x0 k) : ∀ i < k, (cgSeq A M b x0 i).r ≠ 0 := by
   intro i hi h0
   have hμ0 : (((‖b‖ : ℝ) : 𝕜)) ≠ 0 := by
     have : ‖b‖ ≠ 0 := norm_ne_zero_iff.mpr hb
@@ -236,9 +271,66 @@ theorem r_ne_zero_of_guards {ε : ℝ} (hε : 0 < ε) {b x0 : E} (hb : b ≠ 0) 
   rw [this, norm_zero] at h1
   linarith
 
-/-- **Krylov optimality of the guarded, normalised run** (one column): for symmetric positive
-definite `A`, `M`, `b ≠ 0` and no guard active in the first `k` steps, the returned vector lies in
-`x0 + K_k(MA, M r0)` and minimises the energy (squared `A`-norm of the error) over that set. -/
+theorem r_ne_zero_of_guards {ε : ℝ} (hε : 0 < ε) {b x0 : E} (hb : b ≠ 0) {k : ℕ}
+    (hg : GuardsOffN A M ε b x0 k) : ∀ i < k, (cgSeq A M b x0 i).r ≠ 0 :=
+  r_ne_zero_of_ok hε hb (hg.stepOKN hε)
+
+/-- the mask of the first `k` steps is off, stated on the TEXTBOOK residuals `r_i = b - A x_i` of the
+original system: `ε ‖b‖ ≤ ‖r_i‖` -/
+def MaskOffN (A M : E →ₗ[𝕜] E) (ε : ℝ) (b x0 : E) (k : ℕ) : Prop :=
+  ∀ i < k, ε * ‖b‖ ≤ ‖(cgSeq A M b x0 i).r‖
+
+/-- **for symmetric positive definite `A`, `M` the mask is the only guard that can act**: the two
+guarded denominators are non-zero as long as the residuals are -/
+theorem stepOKN_of_maskOff (hA : A.IsSymmetric) (hM : M.IsSymmetric) (pA : PosDefOp A)
+    (pM : PosDefOp M) {ε : ℝ} (hε : 0 < ε) {b x0 : E} (hb : b ≠ 0) {k : ℕ}
+    (h : MaskOffN A M ε b x0 k) : StepOKN A M ε b x0 k := by
+  have hbpos : 0 < ‖b‖ := norm_pos_iff.mpr hb
+  have hμ0 : (((‖b‖ : ℝ) : 𝕜)) ≠ 0 := by exact_mod_cast hbpos.ne'
+  have hc : ((((‖b‖ : ℝ) : 𝕜))⁻¹) ≠ 0 := inv_ne_zero hμ0
+  have hcc : conj ((((‖b‖ : ℝ) : 𝕜))⁻¹) * (((‖b‖ : ℝ) : 𝕜))⁻¹ ≠ 0 :=
+    mul_ne_zero ((map_ne_zero _).mpr hc) hc
+  have hr : ∀ i < k, (cgSeq A M b x0 i).r ≠ 0 := by
+    intro i hi h0
+    have := h i hi
+    rw [h0, norm_zero] at this
+    have : 0 < ε * ‖b‖ := mul_pos hε hbpos
+    linarith
+  have hnb := noBreak_of_posDef hA hM pA pM k hr
+  intro i hi
+  unfold StepOK
+  rw [cgSeq_smul hc]
+  refine ⟨?_, ?_, ?_⟩
+  · show ε ≤ ‖(((‖b‖ : ℝ) : 𝕜))⁻¹ • (cgSeq A M b x0 i).r‖
+    rw [norm_smul, norm_inv, RCLike.norm_ofReal, abs_of_pos hbpos, le_inv_mul_iff₀ hbpos, mul_comm]
+    exact h i hi
+  · show conj ((((‖b‖ : ℝ) : 𝕜))⁻¹) * (((‖b‖ : ℝ) : 𝕜))⁻¹ * (cgSeq A M b x0 i).γ ≠ 0
+    exact mul_ne_zero hcc (hnb i hi).1
+  · show ⟪(((‖b‖ : ℝ) : 𝕜))⁻¹ • (cgSeq A M b x0 i).p,
+      A ((((‖b‖ : ℝ) : 𝕜))⁻¹ • (cgSeq A M b x0 i).p)⟫_𝕜 ≠ 0
+    rw [map_smul, inner_smul_left, inner_smul_right, ← mul_assoc]
+    exact mul_ne_zero hcc (hnb i hi).2
+
+/-- Krylov optimality of the guarded, normalised run from the mask condition alone -/
+theorem gRun_optimal_mask (hA : A.IsSymmetric) (hM : M.IsSymmetric) (pA : PosDefOp A)
+    (pM : PosDefOp M) {ε : ℝ} (hε : 0 < ε) {b x0 : E} (hb : b ≠ 0) {k : ℕ}
+    (hg : MaskOffN A M ε b x0 k) {xs : E} (hxs : A xs = b) :
+    gRun A M ε b x0 k = (cgSeq A M b x0 k).x ∧
+    gRun A M ε b x0 k - x0 ∈ krylov (M ∘ₗ A) (M (b - A x0)) k ∧
+    (∀ y : E, y - x0 ∈ krylov (M ∘ₗ A) (M (b - A x0)) k →
+      energy A xs (gRun A M ε b x0 k) ≤ energy A xs y) ∧
+    (∀ y : E, y - x0 ∈ krylov (M ∘ₗ A) (M (b - A x0)) k →
+      energy A xs y ≤ energy A xs (gRun A M ε b x0 k) → y = gRun A M ε b x0 k) := by
+  have hok := stepOKN_of_maskOff hA hM pA pM hε hb hg
+  have he := gRun_eq_cgSeq_ok hb hok
+  rw [he]
+  have hr := r_ne_zero_of_ok hε hb hok
+  exact ⟨rfl, x_mem_krylov k, fun y hy => cg_optimal_krylov hA hM pA pM hxs hr hy,
+    fun y hy hle => cg_optimal_unique hA hM pA pM hxs hr hy hle⟩
+
+/-- **Krylov optimality of the guarded, normalised run** (one column, round-1 form): for symmetric
+positive definite `A`, `M`, `b ≠ 0` and no guard active in the first `k` steps, the returned vector
+lies in `x0 + K_k(MA, M r0)` and minimises the energy (squared `A`-norm of the error) over that set. -/
 theorem gRun_optimal (hA : A.IsSymmetric) (hM : M.IsSymmetric) (pA : PosDefOp A) (pM : PosDefOp M)
     {ε : ℝ} (hε : 0 < ε) {b x0 : E} (hb : b ≠ 0) {k : ℕ} (hg : GuardsOffN A M ε b x0 k)
     {xs : E} (hxs : A xs = b) :
@@ -247,7 +339,7 @@ theorem gRun_optimal (hA : A.IsSymmetric) (hM : M.IsSymmetric) (pA : PosDefOp A)
       energy A xs (gRun A M ε b x0 k) ≤ energy A xs y) ∧
     (∀ y : E, y - x0 ∈ krylov (M ∘ₗ A) (M (b - A x0)) k →
       energy A xs y ≤ energy A xs (gRun A M ε b x0 k) → y = gRun A M ε b x0 k) := by
-  rw [gRun_eq_cgSeq hb hg]
+  rw [gRun_eq_cgSeq hε hb hg]
   have hr := r_ne_zero_of_guards hε hb hg
   exact ⟨x_mem_krylov k, fun y hy => cg_optimal_krylov hA hM pA pM hxs hr hy,
     fun y hy hle => cg_optimal_unique hA hM pA pM hxs hr hy hle⟩
@@ -262,25 +354,68 @@ theorem gRun_frozen {ε : ℝ} {b x0 : E} {t k : ℕ} (htk : t ≤ k)
   obtain ⟨d, rfl⟩ := Nat.exists_eq_add_of_le htk
   rw [Nat.add_comm, Function.iterate_add_apply, (gStep_frozen_iter hr d).1]
 
-/-- while no guard is active, the recursively updated residual of the normalised column IS the true
-residual of the returned vector, in units of `‖b‖` — so the stopping test `‖r‖ ≤ tol ‖r0‖ + tol`
-is the property's `‖b - A x‖ ≤ tol (1 + ‖r0‖ / ‖b‖) ‖b‖` -/
-theorem gState_r_true (hA : A.IsSymmetric) (hM : M.IsSymmetric) (pA : PosDefOp A) (pM : PosDefOp M)
-    {ε : ℝ} (hε : 0 < ε) {b x0 : E} (hb : b ≠ 0) {k : ℕ} (hg : GuardsOffN A M ε b x0 k) :
+/-- the recursively updated residual of the normalised column IS the true residual of the returned
+vector, in units of `‖b‖`, while the mask is off and no denominator vanishes -/
+theorem gState_r_true_ok (hA : A.IsSymmetric) (hM : M.IsSymmetric) (pA : PosDefOp A)
+    (pM : PosDefOp M) {ε : ℝ} (hε : 0 < ε) {b x0 : E} (hb : b ≠ 0) {k : ℕ}
+    (hg : StepOKN A M ε b x0 k) :
     ((gStep A M ε)^[k] (gInit A M ((nscale (𝕜 := 𝕜) b)⁻¹ • b) ((nscale (𝕜 := 𝕜) b)⁻¹ • x0))).r =
-      (((‖b‖ : ℝ) : 𝕜))⁻¹ • (b - A (gRun A M ε b x0 k)) := by
+      (((‖b‖ : ℝ) : 𝕜))⁻¹ • (b - A (gRun A M ε b x0 k)) ∧
+    ((gStep A M ε)^[k] (gInit A M ((nscale (𝕜 := 𝕜) b)⁻¹ • b) ((nscale (𝕜 := 𝕜) b)⁻¹ • x0))).r =
+      (((‖b‖ : ℝ) : 𝕜))⁻¹ • (cgSeq A M b x0 k).r := by
   have hμ0 : (((‖b‖ : ℝ) : 𝕜)) ≠ 0 := by
     have : ‖b‖ ≠ 0 := norm_ne_zero_iff.mpr hb
     exact_mod_cast this
-  rw [gRun_eq_cgSeq hb hg, nscale_of_ne hb]
-  have h1 := gSeq_core (A := A) (M := M) k hg
+  rw [gRun_eq_cgSeq_ok hb hg, nscale_of_ne hb]
+  have h1 := gSeq_core_ok (A := A) (M := M) k hg
   have hr : ((gStep A M ε)^[k] (gInit A M ((((‖b‖ : ℝ) : 𝕜))⁻¹ • b) ((((‖b‖ : ℝ) : 𝕜))⁻¹ • x0))).r
       = (cgSeq A M ((((‖b‖ : ℝ) : 𝕜))⁻¹ • b) ((((‖b‖ : ℝ) : 𝕜))⁻¹ • x0) k).r := by
     rw [← h1]; rfl
   rw [hr, cgSeq_smul (inv_ne_zero hμ0)]
-  have hnb := noBreak_of_posDef hA hM pA pM k (r_ne_zero_of_guards hε hb hg)
+  have hnb := noBreak_of_posDef hA hM pA pM k (r_ne_zero_of_ok hε hb hg)
   have hinv := cgInv_all hA hM k hnb k le_rfl
+  refine ⟨?_, rfl⟩
   show (((‖b‖ : ℝ) : 𝕜))⁻¹ • (cgSeq A M b x0 k).r = _
   rw [hinv.res]
+
+/-- round-1 form of `gState_r_true_ok` -/
+theorem gState_r_true (hA : A.IsSymmetric) (hM : M.IsSymmetric) (pA : PosDefOp A) (pM : PosDefOp M)
+    {ε : ℝ} (hε : 0 < ε) {b x0 : E} (hb : b ≠ 0) {k : ℕ} (hg : GuardsOffN A M ε b x0 k) :
+    ((gStep A M ε)^[k] (gInit A M ((nscale (𝕜 := 𝕜) b)⁻¹ • b) ((nscale (𝕜 := 𝕜) b)⁻¹ • x0))).r =
+      (((‖b‖ : ℝ) : 𝕜))⁻¹ • (b - A (gRun A M ε b x0 k)) :=
+  (gState_r_true_ok hA hM pA pM hε hb (hg.stepOKN hε)).1
+
+/-- **the unconditional statement (any `k`, no hypothesis on the residuals)**: for symmetric positive
+definite `A`, `M` and `b ≠ 0` the value returned after `k` steps is the textbook iterate `x_{k'}` of some
+`k' ≤ k`, where either `k' = k`, or the relative residual of `x_{k'}` is already below `ε`
+(`‖b - A x_{k'}‖ < ε ‖b‖`: the mask froze the column there); the mask was off before `k'`. -/
+theorem gRun_final (hA : A.IsSymmetric) (hM : M.IsSymmetric) (pA : PosDefOp A) (pM : PosDefOp M)
+    {ε : ℝ} (hε : 0 < ε) {b x0 : E} (hb : b ≠ 0) (k : ℕ) :
+    ∃ k', k' ≤ k ∧ MaskOffN A M ε b x0 k' ∧
+      (k' = k ∨ ‖(cgSeq A M b x0 k').r‖ < ε * ‖b‖) ∧
+      gRun A M ε b x0 k = (cgSeq A M b x0 k').x := by
+  classical
+  have hbpos : 0 < ‖b‖ := norm_pos_iff.mpr hb
+  by_cases hex : ∃ i, i < k ∧ ‖(cgSeq A M b x0 i).r‖ < ε * ‖b‖
+  · let k' := Nat.find hex
+    have hk' : k' < k ∧ ‖(cgSeq A M b x0 k').r‖ < ε * ‖b‖ := Nat.find_spec hex
+    have hmask : MaskOffN A M ε b x0 k' := by
+      intro i hi
+      by_contra hcon
+      exact Nat.find_min hex hi ⟨lt_trans hi hk'.1, not_le.mp hcon⟩
+    have hok := stepOKN_of_maskOff hA hM pA pM hε hb hmask
+    have hres := (gState_r_true_ok hA hM pA pM hε hb hok).2
+    have hfro : gRun A M ε b x0 k = gRun A M ε b x0 k' := by
+      apply gRun_frozen hk'.1.le
+      rw [hres, norm_smul, norm_inv, RCLike.norm_ofReal, abs_of_pos hbpos, inv_mul_lt_iff₀ hbpos,
+        mul_comm]
+      exact hk'.2
+    exact ⟨k', hk'.1.le, hmask, Or.inr hk'.2, by rw [hfro]; exact gRun_eq_cgSeq_ok hb hok⟩
+  · have hmask : MaskOffN A M ε b x0 k := by
+      intro i hi
+      by_contra hcon
+      exact hex ⟨i, hi, not_le.mp hcon⟩
+    exact ⟨k, le_rfl, hmask, Or.inl rfl,
+      gRun_eq_cgSeq_ok hb (stepOKN_of_maskOff hA hM pA pM hε hb hmask)⟩
 
 end CG
